@@ -301,7 +301,8 @@ ADDED5 = {
     "C05": " Clause DocumentedPowerRule (the power conjunct of the documented preconditions read from the node itself, no validator); every path "
            "of the live request tree is also submitted bare; directed power requests at every power state with asymmetric durations; services asked "
            "to be uninstalled through the application route.",
-    "C08": " Termination under faults: nodes powered off before any traffic, cold caches, every remaining host sends to every other host.",
+    "C08": " Termination under faults: nodes powered off before any traffic, cold caches, every remaining host sends to every other host. A tenth "
+           "topology (a host on a LAN shared by two routers) and chains of two exchanges after one cold start.",
     "C10": " The fresh value of the page / database-unreachable penalties is computed from their docstrings (no twin of the implementation's "
            "class); variant with an uninstalled browser.",
     "C11": " Clauses ExecutedIsDeclaredEntry (the request executed for action number i is formed from the entry declared under key i; maps "
